@@ -196,6 +196,17 @@ Theorem C01_zip_next_result_under_wake_driven_executor scs ops B :
 Proof. intros He Hp. exact (zip_next_result scs He Hp ops B). Qed.
 Print Assumptions C01_zip_next_result_under_wake_driven_executor.
 
+(* the rounds on concrete inputs: merge yields its item in the second round and ends in the third; zip yields its row in the second round *)
+Example C01_rounds_witness :
+  let P := {| fires := []; answer := APend |} in let I v := {| fires := []; answer := AItem v |} in let E := {| fires := []; answer := AEnd |} in
+  let mrnd := rounds mst m_n m_awaited (fun _ i => i) m_handle true true m_order m_pre_exit (fun _ => false) m_finish (fun s => s)
+                (fun s => drop_all_children (m_n s)) m_final (@no_mut mst) in
+  let zrnd := rounds zst z_n z_awaited (fun _ i => i) z_handle false true z_order (fun _ => None) (fun _ => false) z_finish (fun s => s)
+                z_drop m_final (@no_mut zst) in
+  map (fun k => results (strip (tr _ (mrnd k (merge_world true [[P; I 1; E]; [P; P; E]] []))))) [1; 2; 3] = [[]; [OSome (Some 0) [1]]; [OSome (Some 0) [1]; ONone]] /\
+  map (fun k => results (strip (tr _ (zrnd k (zip_world true [[P; I 1; E]; [I 5; P; E]] []))))) [1; 2; 3] = [[]; [OSome None [1; 5]]; [OSome None [1; 5]; ONone]].
+Proof. vm_compute. split; reflexivity. Qed.
+
 (* non-vacuity: a history that reaches a state satisfying all premises of C01_join: child 0 pends, its waker fires after the poll *)
 Example C01_witness :
   let scs := [[{| fires := []; answer := APend |}]; [{| fires := []; answer := APend |}]] in
